@@ -73,6 +73,8 @@ type Exec struct {
 	guardedMaps map[*MapObj]*guardRec
 	luaLI       *luaInterp // the interpreter whose tables Go-side gopher-lua constructors create (luaboundary.go)
 	pools       map[*Cell][]Value // sync.Pool contents on this path (luaboundary.go)
+	luaCells    map[*LTableV]*Cell // one Go-side cell per Lua table handed to Go code (luaboundary.go)
+	nestedMarshal int // >0 while a MarshalJSON method of the repository runs inside json.Marshal (json.go)
 	globals   map[*ssa.Global]*Cell
 	ginit     map[*ssa.Global]bool
 	nondets   []nondetRec
